@@ -737,7 +737,7 @@ theorem estimate_covers_multisig_legacy (vk : Bytes → Bool) (tp : Bytes → Ty
   · simp only [hr, if_true] at htp hfin
     have hest : estimatedInputSizes tp H sizer ⟨some spk, redeem, [], hd, sht, false, [], []⟩ =
         .ok ((serializePushes ((0 :: List.replicate sigs.length SIG).map zeros ++ [])).length, []) := by
-      simp [estimatedInputSizes, htp, hr, solutionSizes, hm, Except.map]
+      simp [estimatedInputSizes, htp, hr, solutionSizes, p2msM_eq pl _ hm, Except.map]
     refine ⟨_, _, hest, hfin, ?_, trivial⟩
     have := pushes_cover ([] :: sigs) (0 :: List.replicate sigs.length SIG) [] hc
     simpa [sizesOf] using this
@@ -745,7 +745,7 @@ theorem estimate_covers_multisig_legacy (vk : Bytes → Bool) (tp : Bytes → Ty
     simp only [hr', Bool.false_eq_true, if_false] at htp hfin
     have hest : estimatedInputSizes tp H sizer ⟨some spk, redeem, [], hd, sht, false, [], []⟩ =
         .ok ((serializePushes ((0 :: List.replicate sigs.length SIG).map zeros ++ [redeem])).length, []) := by
-      simp [estimatedInputSizes, htp.1, htp.2, hr', solutionSizes, hm, Except.map]
+      simp [estimatedInputSizes, htp.1, htp.2, hr', solutionSizes, p2msM_eq pl _ hm, Except.map]
     refine ⟨_, _, hest, hfin, ?_, trivial⟩
     have := pushes_cover ([] :: sigs) (0 :: List.replicate sigs.length SIG) [redeem] hc
     simpa [sizesOf] using this
@@ -777,14 +777,23 @@ theorem estimate_covers_multisig_p2wsh (vk : Bytes → Bool) (tp : Bytes → Ty 
   · simp only [hr, if_true] at htp hfin
     have hest : estimatedInputSizes tp H sizer ⟨some spk, redeem, ws, hd, sht, false, [], []⟩ =
         .ok ((serializePushes []).length, (0 :: List.replicate sigs.length SIG) ++ [ws.length]) := by
-      simp [estimatedInputSizes, htp, hr, p2wshWitnessSizes, hws, htw, solutionSizes, hm, Except.map]
+      simp [estimatedInputSizes, htp, hr, p2wshWitnessSizes, hws, htw, solutionSizes, p2msM_eq pl _ hm, Except.map]
     exact ⟨_, _, hest, hfin, by simp [sizesOf], by simpa [sizesOf] using hc⟩
   · have hr' : redeem.isEmpty = false := by simpa using hr
     simp only [hr', Bool.false_eq_true, if_false] at htp hfin
     have hest : estimatedInputSizes tp H sizer ⟨some spk, redeem, ws, hd, sht, false, [], []⟩ =
         .ok ((serializePushes [redeem]).length, (0 :: List.replicate sigs.length SIG) ++ [ws.length]) := by
-      simp [estimatedInputSizes, htp.1, htp.2, hr', p2wshWitnessSizes, hws, htw, solutionSizes, hm, Except.map]
+      simp [estimatedInputSizes, htp.1, htp.2, hr', p2wshWitnessSizes, hws, htw, solutionSizes, p2msM_eq pl _ hm, Except.map]
     exact ⟨_, _, hest, hfin, by simp [sizesOf], by simpa [sizesOf] using hc⟩
+
+/-- the threshold the estimate reads off the first op code of a multisig payload -- the TRANSLATED `m = …` line of
+    `_solution_sizes` -- is m for every OP_m (OP_16 = 0x60 included, where reading the low nibble would say 0): one
+    empty element and m signatures of SIG_SIZE are estimated -/
+theorem multisig_threshold_read_off_op_code (H : Bytes → Bytes) (pin : SizeIn) (pl : Bytes) (m : Nat)
+    (hm : Btc.Script.Core.getB pl 0 = Gen.Fee.OP_INT_OFFSET.toNat + m) :
+    solutionSizes H .p2ms pl pin = some (0 :: List.replicate m SIG) := by
+  simp [solutionSizes, p2msM_eq pl m hm]
+example : p2msM [0x60, 33] = 16 ∧ p2msM [0x51] = 1 ∧ p2msM [0x5f] = 15 := by decide
 
 -- non-vacuity: `p2ms_m_and_keys` and the finalizer on a concrete 1-of-2 (bare) with one signature for the second key
 open Btc.Spend in
